@@ -19,7 +19,21 @@ from mc.core.runner import COMPAT, REPO, VERIF
 ID = 'C04'
 LEVEL = 'model_checking'
 
-M0 = '''class Item:
+M0 = '''from collections.abc import Callable
+from typing import Generic, TypeVar
+
+T_Box = TypeVar('T_Box')
+
+class Box(Generic[T_Box]):
+	value: T_Box
+
+	def __init__(self, value: T_Box) -> None:
+		self.value = value
+
+	def each(self, f: Callable[[T_Box], None]) -> None:
+		f(self.value)
+
+class Item:
 	n: int
 
 	def __init__(self, n: int) -> None:
@@ -34,7 +48,11 @@ def make(n: int) -> Item:
 
 COUNT: int = 3
 '''
-M1 = '''from c04pool.m0 import Item, make, COUNT
+M1 = '''from c04pool.m0 import Item, make, COUNT, Box
+
+def run_box1() -> None:
+	b = Box[int](1)
+	b.each(lambda e: print(e))
 
 class Holder:
 	item: Item
@@ -52,6 +70,11 @@ def make1(n: int) -> Holder:
 COUNT1: int = 4
 '''
 M2 = '''from c04pool.m1 import Holder, make1
+from c04pool.m0 import Box
+
+def run_box2() -> None:
+	b = Box[str]('a')
+	b.each(lambda e: print(e))
 
 class Top:
 	h: Holder
@@ -128,6 +151,8 @@ MAIN_V = {
     'v0': 'from c04pool.m1 import make1\n\ndef run(n: int) -> int:\n\tx = make1(n)\n\treturn x.get()\n',
     'v1': 'from c04pool.m0x import make, wide\n\ndef run(n: str) -> str:\n\tx = make(n)\n\tw = wide(1, \'a\', 1.5, True, 2, \'b\', 2.5, False, 3, \'c\', 4)\n\treturn x.get()\n',
     'bad': 'def run(n: int) -> int:\n\treturn (n +\n',
+    # parses, fails while its symbols are collected (an annotation names an unknown type)
+    'badtype': 'class Early:\n\tv: int\n\n\tdef __init__(self) -> None:\n\t\tself.v = 1\n\ndef run(n: Zz_unknown) -> int:\n\treturn 1\n',
     # loads, fails while it is transpiled (in the middle of a run of the long-lived transpiler and its procedures)
     'ill': 'from c04pool.m1 import make1\n\ndef first(values: list[int]) -> int:\n\treturn values[0]\n\ndef run(n: int) -> int:\n\tx = make1(n)\n\ty = [zz_undefined(v) for v in [x.get()]]\n\treturn y[0]\n',
 }
